@@ -71,11 +71,11 @@ Definition res_merge (t : float) (s : mst) (ps : list fp) (e : entry) : mst * li
 Definition fl_p (p : fp) : list float := [px p; py p; pz p; pvx p; pvy p; pvz p; pm p; pr p; plc p].
 Definition flagF (p : fp) : fp := mkP (px p) PrimFloat.nan (pz p) (pvx p) (pvy p) (pvz p) (pm p) (pr p) (plc p) (phash p).
 
-(* output: log, final hashes, all particle doubles followed by max_radius0, max_radius1 and N_active *)
+(* mr0 = (max_radius0, max_radius1) before the search (their bookkeeping under reb_simulation_add is tied in (e)).
+   output: log, final hashes, all particle doubles followed by max_radius0, max_radius1 and N_active *)
 Definition merge_search (keep : bool) (nact : Z) (bx by_ bz : float) (ngx ngy ngz : Z) (seed : Z) (t : float)
-           (cbs : list float) (ps : list fp) : list event * list Z * list float :=
+           (mr0 : float * float) (cbs : list float) (ps : list fp) : list event * list Z * list float :=
   let pend := pending_direct bx by_ bz ngx ngy ngz seed ps in
-  let mr0 := fold_left (add_radius_num FNum) (map (fun p : fp => pr p) ps) (PrimFloat.zero, PrimFloat.zero) in
   let '((_, (m0, m1)), psf, naf, log) :=
     resolve_loop (fun p : fp => phash p) flagF (res_merge t) false keep (fun e => e) nact (cbs, mr0) ps pend in
   (log, map (fun p : fp => phash p) psf ++ [naf], flat_map fl_p psf ++ [m0; m1]).
